@@ -145,6 +145,25 @@ PINS = [
 ]
 
 
+# Functions pinned by their loss-free effect skeleton only (subst.effects_unchanged): what they call, store and return under
+# which conditions must be the pinned commit's, or a listed hand-verified equivalent spelling.  For functions whose
+# behaviour is mostly effects (a return-value normal form says nothing about them).
+EFFECT_PINS = [
+    ("sim::Simulator::reset", {"C30", "C31"}, "src/sim.rs",
+     "reset saves flags/MCR/breakpoints/register map/devices, rebuilds the machine with Simulator::new_with_mcr (so a seeded machine draws memory and registers exactly like a fresh one), restores them and resets the devices"),
+    ("<sim::device::keyboard::BufferedKeyboard as sim::device::keyboard::KeyboardDevice>::clear_input", {"C30", "C33"}, "src/sim/device/keyboard.rs",
+     "clear_input empties the shared buffer when it can take the lock and otherwise leaves the attached buffer alone (it never replaces the handle the host holds)"),
+    ("<sim::device::display::BufferedDisplay as sim::device::display::DisplayDevice>::clear_output", {"C30", "C33"}, "src/sim/device/display.rs",
+     "clear_output empties the shared buffer when it can take the lock and otherwise leaves it alone"),
+    ("sim::Simulator::read_mem", {"C33"}, "src/sim.rs",
+     "a load from a device register reads the device with the context's io_effects flag (peek vs consuming read) and mirrors the value"),
+    ("sim::Simulator::write_mem", {"C33"}, "src/sim.rs",
+     "a store to a device register hands the initialised value to the internal register or the owning device once"),
+    ("sim::device::timer::TimerDevice::new", {"C34", "C31"}, "src/sim/device/timer.rs",
+     "a timer built with Some(seed) draws from StdRng::seed_from_u64(seed) for every seed value, with None from the OS"),
+]
+
+
 def check(ck, F, pid):
     n = 0
     seen = set()
@@ -165,8 +184,20 @@ def check(ck, F, pid):
                 ck.ob(pid + ".P", "pin-effects:" + short, False,
                       "%s; the calls/stores/conditions of this function differ from the pinned commit's and the new form is not a listed equivalent spelling: %s" % (what, nf.full_form(F, path)[:600]),
                       "%s:%s" % (file, b.line if b else "?"))
+    for path, props, file, what in EFFECT_PINS:
+        if pid not in props:
+            continue
+        n += 1
+        b = F.bodies.get(path)
+        short = path if len(path) <= 70 else path[:34] + ".." + path[-34:]
+        if not ck.anchor(pid + ".P", path, b):
+            continue
+        eu = subst.effects_unchanged(F, path)
+        ck.ob(pid + ".P", "effects:" + short, eu is not False,
+              "%s%s" % (what, "" if eu is not False else "; the calls/stores/conditions of this function differ from the pinned commit's and the new form is not a listed equivalent spelling: " + nf.full_form(F, path)[:500]),
+              "%s:%s" % (file, b.line))
     return n
 
 
 def coverage():
-    return sorted(set(p for p, *_ in PINS))
+    return sorted(set(p for p, *_ in PINS) | set(p for p, *_ in EFFECT_PINS))
